@@ -1,6 +1,250 @@
 import Driver.Util
+import Sqfs.Model.Unpack
+/-
+Line protocol of `sqfsmodel c06` (one request per line, one answer line):
+
+  plan  FLAGS UPATH NODE…      → `<status> ev ev …`         (the plan of `unpackPlan`)
+  exec  FLAGS UPATH NODE…      → `<status> sc=res … | st …` (the plan executed from a fresh R = /R)
+  monitor RPATH N FSENT{N} SC… → `<verdict> res@key …`       (the model's POSIX semantics applied to an
+                                                             *implementation* trace: specification monitor)
+
+FLAGS  letters of C (chmod) O (chown) X (set-xattr) T (set-times) D S F L E (no-dev/sock/fifo/slink/empty-dir), or `-`
+UPATH  the raw `--unpack-path` argument in hex (`-` = empty); it is canonicalised as options.c does
+NODE   preorder: `K:NAME:PAYLOAD:PERM:UID:GID:MTIME:DEV:XATTRS:NCHILDREN`, K ∈ d f l b c p s, NAME/PAYLOAD hex
+       (`-` empty), XATTRS `-` or `khex=vhex,…`; the first node is the image's root (its NAME is ignored: "")
+RPATH / keys  absolute component paths: `/` or `/hex/hex…`
+FSENT  `key:d` | `key:f` | `key:l:TARGETHEX` | `key:s`
+SC     as printed by `plan`
+-/
 namespace Driver.C06
-/-- stub: the model driver for C06 is not built yet -/
+open Sqfs.Path Sqfs.Unpack
+
+def kindOfTok : String → Option Kind
+  | "d" => some .dir | "f" => some .reg | "l" => some .lnk | "b" => some .blk
+  | "c" => some .chr | "p" => some .fifo | "s" => some .sock | _ => none
+
+def kindTok : Kind → String
+  | .dir => "d" | .reg => "f" | .lnk => "l" | .blk => "b" | .chr => "c" | .fifo => "p" | .sock => "s"
+
+def parseXattrs (s : String) : Option (List (Bytes × Bytes)) :=
+  if s = "-" then some [] else
+  (s.splitOn ",").mapM (fun kv => match kv.splitOn "=" with
+    | [k, v] => do pure ((← fromHex k), (← fromHex v))
+    | _ => none)
+
+structure Flat where
+  name : Bytes
+  kind : Kind
+  payload : Bytes
+  attr : Attr
+  nch : Nat
+
+def parseNode (tok : String) : Option Flat :=
+  match tok.splitOn ":" with
+  | [k, n, p, perm, uid, gid, mt, dev, xa, nch] => do
+    let k ← kindOfTok k
+    let n ← fromHex n
+    let p ← fromHex p
+    let xa ← parseXattrs xa
+    let perm ← perm.toNat?
+    let uid ← uid.toNat?
+    let gid ← gid.toNat?
+    let mt ← mt.toNat?
+    let dev ← dev.toNat?
+    let nch ← nch.toNat?
+    pure ⟨n, k, p, { perm := perm, uid := uid, gid := gid, mtime := mt, devno := dev, xattrs := xa }, nch⟩
+  | _ => none
+
+/-- rebuild the tree from its preorder listing (fuel = number of tokens) -/
+def build : Nat → List Flat → Option (TNode × List Flat)
+  | 0, _ => none
+  | _, [] => none
+  | fuel + 1, f :: rest =>
+    let rec kids (fuel : Nat) : Nat → List Flat → Option (List TNode × List Flat)
+      | 0, r => some ([], r)
+      | n + 1, r => match build fuel r with
+        | none => none
+        | some (c, r') => match kids fuel n r' with
+          | none => none
+          | some (cs, r'') => some (c :: cs, r'')
+    match kids fuel f.nch rest with
+    | none => none
+    | some (cs, r) => some (.mk f.name f.kind f.payload f.attr cs, r)
+
+def parseTree (toks : List String) : Option TNode := do
+  let fl ← toks.mapM parseNode
+  match build (fl.length + 1) fl with
+  | some (t, []) => some t
+  | _ => none
+
+def parseFlags (s : String) : Option (Flags × TreeFlags) :=
+  if s = "-" then some ({}, {}) else
+  let l := s.toList
+  if l.all (fun c => "COXTDSFLE".toList.contains c) then
+    some ({ chmod := l.contains 'C', chown := l.contains 'O', setXattr := l.contains 'X', setTimes := l.contains 'T' },
+          { noDev := l.contains 'D', noSock := l.contains 'S', noFifo := l.contains 'F', noSlink := l.contains 'L',
+            noEmpty := l.contains 'E' })
+  else none
+
+/-- options.c `get_path`: the `-u` argument goes through `canonicalize_name`; `none` = "Invalid path", exit.
+    `sqfs_dir_reader_get_full_hierarchy` then walks its non-empty components. -/
+def parseUPath (s : String) : Option (Option (List Bytes)) := do
+  let raw ← fromHex s
+  match canonicalize raw with
+  | none => pure none
+  | some p => pure (some ((splitSlash p).filter (fun c => !c.isEmpty)))
+
+def b2s (b : Bool) : String := if b then "1" else "0"
+
+def scTok : Syscall → String
+  | .mkdir p m => s!"mkdir:{toHexTok p}:{m}"
+  | .symlink t p => s!"symlink:{toHexTok t}:{toHexTok p}"
+  | .mknod p k m d => s!"mknod:{toHexTok p}:{kindTok k}:{m}:{d}"
+  | .openExcl p m => s!"openx:{toHexTok p}:{m}"
+  | .openTrunc p d => s!"opent:{toHexTok p}:{toHexTok d}"
+  | .setxattr p k v nf => s!"setxattr:{toHexTok p}:{toHexTok k}:{toHexTok v}:{b2s nf}"
+  | .utimens p t nf => s!"utimens:{toHexTok p}:{t}:{b2s nf}"
+  | .chown p u g nf => s!"chown:{toHexTok p}:{u}:{g}:{b2s nf}"
+  | .chmod p m => s!"chmod:{toHexTok p}:{m}"
+
+def s2b (s : String) : Option Bool := if s = "1" then some true else if s = "0" then some false else none
+
+def parseSc (tok : String) : Option Syscall :=
+  match tok.splitOn ":" with
+  | ["mkdir", p, m] => do pure (.mkdir (← fromHex p) (← m.toNat?))
+  | ["symlink", t, p] => do pure (.symlink (← fromHex t) (← fromHex p))
+  | ["mknod", p, k, m, d] => do pure (.mknod (← fromHex p) (← kindOfTok k) (← m.toNat?) (← d.toNat?))
+  | ["openx", p, m] => do pure (.openExcl (← fromHex p) (← m.toNat?))
+  | ["opent", p, d] => do pure (.openTrunc (← fromHex p) (← fromHex d))
+  | ["setxattr", p, k, v, nf] => do pure (.setxattr (← fromHex p) (← fromHex k) (← fromHex v) (← s2b nf))
+  | ["utimens", p, t, nf] => do pure (.utimens (← fromHex p) (← t.toNat?) (← s2b nf))
+  | ["chown", p, u, g, nf] => do pure (.chown (← fromHex p) (← u.toNat?) (← g.toNat?) (← s2b nf))
+  | ["chmod", p, m] => do pure (.chmod (← fromHex p) (← m.toNat?))
+  | _ => none
+
+def evTok : Ev → String
+  | .sys s => scTok s
+  | .skip n => s!"skip:{toHexTok n}"
+
+def errTok : Err → String
+  | .duplicate => "duplicate" | .corrupted => "corrupted" | .argInvalid => "argInvalid" | .canonFail => "canonFail"
+
+def errnoTok : Errno → String
+  | .ENOENT => "ENOENT" | .EEXIST => "EEXIST" | .ENOTDIR => "ENOTDIR" | .ELOOP => "ELOOP"
+  | .ENAMETOOLONG => "ENAMETOOLONG" | .EISDIR => "EISDIR" | .EPERM => "EPERM" | .ENXIO => "ENXIO" | .EINVAL => "EINVAL"
+
+def statusTok (o : Out) : String :=
+  match o.err with | none => "ok" | some e => "err:" ++ errTok e
+
+/-- `get_full_hierarchy` (lookup, decode) then the plan -/
+def planFor (fl : Flags × TreeFlags) (upath : List Bytes) (raw : TNode) : Except String Out :=
+  -- the image's root node is created with the name "" (read_tree.c: `create_node(inode, "")`)
+  let raw0 := match raw with | .mk _ k p a ch => TNode.mk [] k p a ch
+  match lookup raw0 upath with
+  | .error .noEntry => .error "lookup:noEntry"
+  | .error .notDir => .error "lookup:notDir"
+  | .ok sub => .ok (unpackPlan sub fl.1 fl.2)
+
+def keyTok (k : PathC) : String :=
+  if k.isEmpty then "/" else String.join (k.map (fun c => "/" ++ toHexTok c))
+
+def parseKey (s : String) : Option PathC :=
+  if s = "/" then some [] else
+  match s.splitOn "/" with
+  | "" :: r => r.mapM fromHex
+  | _ => none
+
+def nodeTok : Option Node → String
+  | none => "-"
+  | some ⟨.dir, a⟩ => s!"d:{a.perm}:{a.uid}:{a.gid}:{a.mtime}:{a.xattrs.length}"
+  | some ⟨.file c, a⟩ => s!"f={toHexTok c}:{a.perm}:{a.uid}:{a.gid}:{a.mtime}:{a.xattrs.length}"
+  | some ⟨.symlink t, a⟩ => s!"l={toHexTok t}:{a.perm}:{a.uid}:{a.gid}:{a.mtime}:{a.xattrs.length}"
+  | some ⟨.special k d, a⟩ => s!"s={kindTok k}={d}:{a.perm}:{a.uid}:{a.gid}:{a.mtime}:{a.xattrs.length}"
+
+/-- the fresh unpack root the `exec` op starts from: `/R` an empty directory -/
+def rootR : PathC := [[82]]
+def freshFs : Fs := fun q => if q = [] ∨ q = rootR then some ⟨.dir, { perm := 0o755 }⟩ else none
+
+def resTok : Option Errno → String
+  | none => "0" | some e => errnoTok e
+
+def dedup (l : List PathC) : List PathC :=
+  l.foldl (fun acc k => if acc.contains k then acc else acc ++ [k]) []
+
+def doExec (o : Out) : String :=
+  let scs := o.syscalls
+  let (fs, tr) := execTrace rootR freshFs scs
+  let keys := dedup (scs.map (fun sc => rootR ++ (splitSlash sc.path)))
+  statusTok o ++ String.join (tr.map (fun (sc, r) => " " ++ scTok sc ++ "=" ++ resTok r))
+    ++ " |" ++ String.join (keys.map (fun k => " " ++ keyTok k ++ "@" ++ nodeTok (fs k)))
+
+def parseFsEnt (tok : String) : Option (PathC × Node) :=
+  match tok.splitOn ":" with
+  | [k, "d"] => do pure ((← parseKey k), ⟨.dir, {}⟩)
+  | [k, "f"] => do pure ((← parseKey k), ⟨.file [], {}⟩)
+  | [k, "s"] => do pure ((← parseKey k), ⟨.special .fifo 0, {}⟩)
+  | [k, "l", t] => do pure ((← parseKey k), ⟨.symlink (← fromHex t), {}⟩)
+  | _ => none
+
+def fsOf (ents : List (PathC × Node)) : Fs := fun q =>
+  match ents.find? (fun e => e.1 = q) with
+  | some e => some e.2
+  | none => none
+
+def isUnder (R k : PathC) : Bool := R.isPrefixOf k && k != R
+
+/-- run the model's `step` over an implementation trace; report each call's model result and the key it
+    writes; verdict `escaped` iff a successful call wrote a key that is not strictly below R -/
+def monitorGo (R : PathC) : Fs → List Syscall → Bool × List String
+  | _, [] => (false, [])
+  | fs, sc :: r =>
+    let key := match resolve fs R sc.path sc.follows with
+      | .ok (k, _) => keyTok k
+      | .error _ => "?"
+    match step fs R sc with
+    | .ok fs' =>
+      let esc := match resolve fs R sc.path sc.follows with
+        | .ok (k, _) => !isUnder R k
+        | .error _ => false
+      let (e, t) := monitorGo R fs' r
+      (esc || e, ("0@" ++ key) :: t)
+    | .error er =>
+      let (e, t) := monitorGo R fs r      -- the implementation decides whether it goes on; its next call is next
+      (e, (errnoTok er ++ "@" ++ key) :: t)
+
+def doMonitor (toks : List String) : Option String :=
+  match toks with
+  | r :: n :: rest => do
+    let R ← parseKey r
+    let n ← n.toNat?
+    let ents ← (rest.take n).mapM parseFsEnt
+    let scs ← (rest.drop n).mapM parseSc
+    let (esc, t) := monitorGo R (fsOf ents) scs
+    pure ((if esc then "escaped" else "confined") ++ String.join (t.map (" " ++ ·)))
+  | _ => none
+
+def step (line : String) : String :=
+  match words line with
+  | "plan" :: fl :: up :: toks =>
+    (match parseFlags fl, parseUPath up, parseTree toks with
+     | some _, some none, some _ => "invalid-path"
+     | some fl, some (some up), some t =>
+       (match planFor fl up t with
+        | .error m => m
+        | .ok o => statusTok o ++ String.join (o.evs.map (" " ++ evTok ·)))
+     | _, _, _ => "bad-op")
+  | "exec" :: fl :: up :: toks =>
+    (match parseFlags fl, parseUPath up, parseTree toks with
+     | some _, some none, some _ => "invalid-path"
+     | some fl, some (some up), some t =>
+       (match planFor fl up t with
+        | .error m => m
+        | .ok o => doExec o)
+     | _, _, _ => "bad-op")
+  | "monitor" :: toks => (doMonitor toks).getD "bad-op"
+  | _ => "bad-op"
+
 def run (_args : List String) : IO Unit := do
-  IO.eprintln "sqfsmodel: model C06 not built yet"
+  lineLoop (← IO.getStdin) (← IO.getStdout) step
+
 end Driver.C06
